@@ -112,7 +112,8 @@ def check_case(pid, predicate, case, stats):
     failures = predicate(case, stats) or []
     unknown = triage(pid, case, failures, stats)
     if unknown:
-        raise Violation(case, unknown)
+        # a predicate over a batch may name the single member that failed
+        raise Violation(unknown[0].get("replay_case", case), unknown)
 
 
 def hyp_run(ctx, stats, strategy, predicate, max_examples, salt=0, shrink=True):
